@@ -298,17 +298,26 @@ namespace cds { namespace intrusive {
                     typename gc::Guard g;
                     node_type * pCur = node_traits::to_node_ptr( *m_pNode );
 
-                    marked_node_ptr pNext;
-                    do {
-                        pNext = pCur->m_pNext.load(memory_model::memory_order_relaxed);
-                        g.assign( node_traits::to_value_ptr( pNext.ptr()));
-                    } while ( cds_unlikely( pNext != pCur->m_pNext.load(memory_model::memory_order_acquire)));
+                    for (;;) {
+                        marked_node_ptr pNext;
+                        do {
+                            pNext = pCur->m_pNext.load(memory_model::memory_order_relaxed);
+                            g.assign( node_traits::to_value_ptr( pNext.ptr()));
+                        } while ( cds_unlikely( pNext != pCur->m_pNext.load(memory_model::memory_order_acquire)));
 
-                    if ( pNext.ptr())
-                        m_pNode = m_Guard.assign( g.template get<value_type>());
-                    else {
-                        m_pNode = nullptr;
-                        m_Guard.clear();
+                        if ( pNext.ptr()) {
+                            m_pNode = m_Guard.assign( g.template get<value_type>());
+
+                            // skip the node if it is logically deleted (marked but not unlinked yet)
+                            pCur = pNext.ptr();
+                            if ( pCur->m_pNext.load( memory_model::memory_order_acquire ).bits())
+                                continue;
+                        }
+                        else {
+                            m_pNode = nullptr;
+                            m_Guard.clear();
+                        }
+                        break;
                     }
                 }
             }
@@ -327,6 +336,10 @@ namespace cds { namespace intrusive {
                     if ( cds_likely( p == pNode.load(memory_model::memory_order_acquire)))
                         break;
                 }
+
+                // the first node can be logically deleted
+                if ( m_pNode && node_traits::to_node_ptr( *m_pNode )->m_pNext.load( memory_model::memory_order_acquire ).bits())
+                    next();
             }
 
         public:
